@@ -136,6 +136,8 @@ def stream_values(ctx):
     if ncdf:
         again = check_values(ctx, 'c01defect', [vcases[i] for i in ncdf], relbits=-30, phi='PhiI_engine_defect')
         known_ncdf = {i for i, (v, _) in zip(ncdf, again) if v == 'agree'}
+    st_e.extra['normalcdf_disagreements'] = len(ncdf)
+    st_e.extra['normalcdf_disagreements_matching_known_engine_defect'] = len(known_ncdf)
     und = {'e': 0, 'p': 0}
     anyrow = {}
     for idx, ((kind, c, row, obs, flag), (v, info)) in enumerate(zip(meta, verdicts)):
@@ -239,10 +241,10 @@ def stream_history(ctx):
         for step, (who, vals) in enumerate(zip(c['script'], r['steps'])):
             tree = strip_sids(c[who])
             if not isinstance(vals, list):
-                for row in c['rows']:
-                    vc.append({'expr': tree, 'env': {'beta': benv, 'var': row}, 'observed': 'error'})
-                    meta.append((c, step, who))
-                continue
+                # the engine aborts the whole evaluation when ONE row is outside the domain: nothing is claimed
+                # about such a step (the value streams judge domain errors row by row)
+                st.extra['steps_outside_domain'] = st.extra.get('steps_outside_domain', 0) + 1
+                break
             for row, v in zip(c['rows'], vals):
                 vc.append({'expr': tree, 'env': {'beta': benv, 'var': row}, 'observed': v})
                 meta.append((c, step, who))
